@@ -10,8 +10,7 @@ RULE = ("metamorphic, no reference: for every base input (link sets x all labell
         "relabellings (plus shifted keys), ALL n! node insertion orders, ALL 2^|E| edge orientations and all edge insertion "
         "orders (|E|<=4, else rotations+reversal), ALL orders of the block definitions, ALL orders of links that do not define "
         "the same interaction, and every split of the definitions over two input files in both orders; histories: ALL sequences "
-        "of <=3 gen_params calls over 6 representative inputs (mixed exclusion distances, uniform, failing, dsDNA, atom removal, "
-        "multi-residue block) in one process, every call's file compared with the file a fresh process writes. "
+        "of <=3 gen_params calls over 9 representative inputs (mixed exclusion distances, uniform, failing, dsDNA, atom removal, three calls naming only a package library) in one process, every call's file compared with the file a fresh process writes. "
         "non-trivial = transformed run differs from base in at least node order / definition order / history")
 ASSUMPTIONS = ["residue ids are kept fixed under relabelling (as the property states)",
                "file comparison ignores the first header line (command line)"]
@@ -210,14 +209,21 @@ HIST_INPUTS = [
     dict(id="dsdna", spec="dna", seq=["DA5:1", "DG:1", "DT3:1"], dsdna=True),
     dict(id="removal", spec="rm", seq=["B:1", "A:2"]),
     dict(id="plain-ACB", spec="plain", seq=["A:1", "C:1", "B:1"]),
+    # calls that only name a library of the package (inpath left at the API default)
+    dict(id="lib-martini3-PEO", lib=["martini3"], seq=["PEO:3"]),
+    dict(id="lib-martini2-PDADMA", lib=["martini2"], seq=["PDADMA:3"]),
+    dict(id="lib-martini3-unknown-block", lib=["martini3"], seq=["PDADMA:3"]),
 ]
 
 
 def run_hist_input(workdir, idx, tag):
     inp = HIST_INPUTS[idx]
-    spec = hist_specs()[inp["spec"]]
-    r = H.run_gen_params(workdir, [(f"ff_{inp['spec']}.ff", F.render_ff(spec))], seq=inp["seq"], dsdna=inp.get("dsdna", False),
-                         outname=f"out_{tag}.itp")
+    if "lib" in inp:
+        r = H.run_gen_params(workdir, [], seq=inp["seq"], outname=f"out_{tag}.itp", lib=inp["lib"], default_inpath=True)
+    else:
+        spec = hist_specs()[inp["spec"]]
+        r = H.run_gen_params(workdir, [(f"ff_{inp['spec']}.ff", F.render_ff(spec))], seq=inp["seq"], dsdna=inp.get("dsdna", False),
+                             outname=f"out_{tag}.itp")
     if r["exc"] is not None:
         return ("EXC", type(r["exc"]).__name__)
     if not r["itp_path"].exists():
@@ -274,6 +280,8 @@ def check_histories(case):
                                   case=dict(case, only_seq=seq), detail={}))
         if len(seq) > 1:
             keys.append("hist:" + ",".join(map(str, seq)))
+        if viols:
+            break       # one counterexample per starting input is enough; a leaking process only gets slower
     # repeated runs give identical files
     return viols, evals, keys
 
